@@ -620,11 +620,13 @@ macro_rules! wrap_impl_uint {
                 }
                 fn pingpong(self, upper: Self) -> Self {
                     assert!(upper > Self::zero());
-                    let r = self % (upper+upper);
-                    if r < upper {
+                    // NOTE: `upper+upper` may overflow, so use the parity of `self/upper` instead.
+                    let two = Self::one() + Self::one();
+                    let r = self % upper;
+                    if (self / upper) % two == Self::zero() {
                         r
                     } else {
-                        upper+upper-r
+                        upper-r
                     }
                 }
             }
@@ -636,15 +638,21 @@ macro_rules! wrap_impl_sint {
         $(
             impl Wrap for $T {
                 // https://stackoverflow.com/a/707426
-                fn wrapped_between(mut self, lower: Self, upper: Self) -> Self {
+                fn wrapped_between(self, lower: Self, upper: Self) -> Self {
                     assert!(lower < upper);
                     assert!(lower >= Self::zero());
                     assert!(upper > Self::zero());
                     let range_size = upper - lower /*+ Self::one()*/;
-                    if self < lower {
-                        self += range_size * ((lower-self)/range_size + Self::one());
+                    // NOTE: `lower-self` and `self-lower` may overflow, so reduce both operands first.
+                    let mut out = self % range_size;
+                    if out < Self::zero() {
+                        out += range_size;
                     }
-                    lower + (self - lower) % range_size
+                    out -= lower % range_size;
+                    if out < Self::zero() {
+                        out += range_size;
+                    }
+                    lower + out
                 }
                 fn wrapped(self, upper: Self) -> Self {
                     assert!(upper > Self::zero());
@@ -652,11 +660,17 @@ macro_rules! wrap_impl_sint {
                 }
                 fn pingpong(self, upper: Self) -> Self {
                     assert!(upper > Self::zero());
-                    let r = self.wrapped(upper+upper);
-                    if r <= upper {
+                    // NOTE: `upper+upper` may overflow, so use the parity of `floor(self/upper)` instead.
+                    let two = Self::one() + Self::one();
+                    let r = self.wrapped(upper);
+                    let mut q = self / upper;
+                    if self % upper < Self::zero() {
+                        q -= Self::one();
+                    }
+                    if q % two == Self::zero() {
                         r
                     } else {
-                        upper+upper-r
+                        upper-r
                     }
                 }
             }
